@@ -598,6 +598,32 @@ def prove(ctx):
     }
 
 
+def long_time_limit(ctx, prop="C15"):
+    """600 slow steps (each measured >= 8 ms) under eval_time_limit = 1100 ms: TimeLimitExceeded, well before the program ends"""
+    limit_ms, nsteps, n, res, line, r = 1100, 600, 1 << 22, None, "", ""
+    while True:
+        line = "slowrun (1 () %d %d %d)" % (nsteps, limit_ms, n)
+        r = run_impl([line], timeout=180)[0]
+        try:
+            v = sx_parse(r)
+            res = v[1] if v[0] == 0 else None
+        except Exception:
+            res = None
+        if res is None or res[3] >= 8000 or n >= (1 << 27):
+            break
+        n *= 2
+    ctx.evaluations += 1
+    st = ctx.stats.setdefault("time-limit-over-one-second", {"cases": 0, "note": "%d x INTVECTOR.SUM on a vector sized so that one step takes >= 8 ms, eval_time_limit = %d ms, release build: run() returns TimeLimitExceeded with most of the program still on EXEC" % (nsteps, limit_ms), "runs": []})
+    st["cases"] += 1
+    st["runs"].append({"elements": n, "result": res})
+    if res is None:
+        ctx.violation("slow-step run did not return", {"property": prop, "kind": "runtime", "suite": "slowrun", "case": line.split(" ", 1)[1], "impl_output": r[:200]})
+    elif res[3] >= 8000 and not (res[0] == 2 and res[1] > 0 and res[4] < (limit_ms + 1500) * 1000):
+        ctx.violation("run() ignored a %d ms time limit: outcome %d after %d ms, %d of %d steps executed" % (limit_ms, res[0], res[4] // 1000, nsteps - res[1], nsteps),
+                      {"property": prop, "kind": "runtime", "suite": "slowrun", "case": line.split(" ", 1)[1], "impl_output": r[:200]})
+
+
+
 def do_replay(mod, path):
     obj = json.load(open(path))
     build_model(); build_harness()
